@@ -98,8 +98,6 @@ fn children_of(cfg: &Cfg, res: &ExecResult, from: usize, out: &mut Vec<Vec<u8>>)
 }
 
 struct Worker<'a> {
-    /// crash hunt: the execution about to run is written here first (see ./check crash_hunt)
-    trace: Option<std::fs::File>,
     cfgs: &'a [Cfg],
     shared: &'a Shared,
     stats: Stats,
@@ -110,12 +108,6 @@ struct Worker<'a> {
 impl<'a> Worker<'a> {
     fn exec(&mut self, ci: usize, prefix: &[u8]) -> Option<ExecResult> {
         let cfg = &self.cfgs[ci];
-        if let Some(f) = &self.trace {
-            use std::os::unix::fs::FileExt;
-            let ch: Vec<String> = prefix.iter().map(|c| c.to_string()).collect();
-            let line = format!("{}|{}\n{:200}", cfg.name, ch.join(","), "");
-            let _ = f.write_at(line.as_bytes(), 0);
-        }
         let res = run(cfg, prefix, false);
         if let Some(e) = &res.nondet_error {
             *self.shared.error.lock().unwrap() = Some(format!("{} in scenario {} prefix {:?}", e, cfg.name, prefix));
@@ -242,13 +234,7 @@ pub fn explore_all(cfgs: &[Cfg], threads: usize, wall_cap_s: f64) -> Outcome {
                             }
                         }
                         let _pg = PanicGuard(&shared);
-                        let trace = std::env::var("SX_TRACE_DIR").ok().and_then(|d| {
-                            let k = shared.execs.fetch_add(0, Ordering::Relaxed);
-                            let _ = k;
-                            let id = format!("{:?}", std::thread::current().id()).replace(|c: char| !c.is_ascii_digit(), "");
-                            std::fs::File::create(format!("{}/w{}", d, id)).ok()
-                        });
-                        let mut wk = Worker { trace, cfgs, shared: &shared, stats: Stats::default(), deadline, split_len: 3 };
+                        let mut wk = Worker { cfgs, shared: &shared, stats: Stats::default(), deadline, split_len: 3 };
                         loop {
                             let item = {
                                 let mut q = shared.queue.lock().unwrap();
